@@ -268,6 +268,9 @@ func (c *GenCtx) GenInt(t *rapid.T, depth int) *Node {
 	for {
 		switch rapid.IntRange(0, max).Draw(t, "intForm") {
 		case 0:
+			if rapid.IntRange(0, 7).Draw(t, "intSpelled") == 0 {
+				return SpelledInt(int64(rapid.IntRange(0, 12).Draw(t, "intLit")), rapid.IntRange(1, 2).Draw(t, "intZeros"))
+			}
 			return Int(int64(rapid.IntRange(0, 12).Draw(t, "intLit")))
 		case 1:
 			if c.Kind == KInt && !c.NoValue {
